@@ -100,6 +100,11 @@ def run(ctx):
             lossy = [n["name"] for n in H.walk(arm["body"]) if H.kind(n) == "MethodCall" and n["name"] in ("unwrap_or", "unwrap_or_else", "unwrap_or_default")]
             if lossy and ks != "number":
                 ctx.inst("C06.R2", "%s#%s#lossy" % (name, H.last(src)), False, "lossy fall-back %s on a non-number arm" % lossy, H.loc(arm["body"]))
+            # the number arm reads the JSON number through the total accessor only: as_f64 answers for every JSON number
+            # (u64, i64, f64), as_i64 / as_u64 are partial and would route in-range values to the lossy fall-back
+            if name == "from_json" and ks == "number":
+                acc = sorted({n["name"] for n in H.walk(arm["body"]) if H.kind(n) == "MethodCall" and "serde_json::number::Number" in (n.get("recv_ty") or "")})
+                ctx.inst("C06.R2", "from_json#Number#accessor", acc == ["as_f64"], "serde_json::Number accessors used: %s (only as_f64 is total; any other accessor makes the `unwrap_or` fall-back reachable for valid numbers)" % acc, H.loc(arm["body"]))
             # recursion with the same function in container arms
             if ks in ("list", "record"):
                 rec = [H.last(n.get("def") or "") for n in H.walk(arm["body"]) if H.kind(n) in ("Call", "MethodCall") and (n.get("def") or "").startswith("blots_core::values::SerializableValue::")]
@@ -131,6 +136,8 @@ def run(ctx):
     for b in ser:
         aty = wo.term(b)["argtys"][0]
         ctx.inst("C06.R3", "write_outputs#serializer", aty.lstrip("&").startswith("indexmap::map::IndexMap<"), "serde_json::to_string(%s)" % aty, wo.loc(b))
+
+    output_file_rule(ctx, "C06.R6", cli)
 
     # ---- R4 every member of an input object is bound
     ctx.rule("C06.R4", "parse_json_inputs inserts every (key, value) of an input object: the insert is conditional only on the Ok of the value conversion, keyed by the member's own key", floor=1)
@@ -204,3 +211,24 @@ def member_insert_rule(ctx, cli, RID):
     if not found:
         ctx.inst(RID, "parse_json_inputs#object-member-insert", None, "no insert found in a loop over the object's members", H.loc(f["body"]))
 
+
+def output_file_rule(ctx, rid, cli):
+    """shared with C19: the --output file is replaced, not patched"""
+    wo = M.Fn(cli.mir_fn("blots::write_outputs"), "blots::write_outputs")
+    # ---- R6 the output file holds exactly the object that was written
+    ctx.rule(rid, "write_outputs replaces the --output file: it is opened with File::create / fs::write, or with OpenOptions that truncate and do not append (stale bytes of a longer earlier output would make the file unreadable as input)", floor=1)
+    opens = wo.calls_matching(lambda d: d in ("std::fs::File::create", "std::fs::write", "std::fs::File::create_new") or d.startswith("std::fs::OpenOptions::") or d == "std::fs::File::options" or d == "std::fs::File::open")
+    names = [wo.callee(b).split("::")[-1] if wo.callee(b).startswith("std::fs::OpenOptions") else wo.callee(b) for b in opens]
+    if not opens:
+        ctx.inst(rid, "write_outputs#open", None, "no file-opening call found in write_outputs (moved to a helper?)", wo.loc())
+    else:
+        creates = [n for n in names if n in ("std::fs::File::create", "std::fs::write")]
+        oo = [n for n in names if n not in creates]
+        trunc = False
+        for b in opens:
+            if wo.callee(b) == "std::fs::OpenOptions::truncate":
+                a = wo.term(b)["args"][1]
+                trunc = trunc or a.get("const", "").endswith("true")
+        app = any(n == "append" for n in oo)
+        ok6 = (bool(creates) and not oo) or (("open" in oo) and trunc and not app)
+        ctx.inst(rid, "write_outputs#open", ok6, "file opened through %s; truncating: %s, appending: %s" % (sorted(set(names)), bool(creates) or trunc, app), wo.loc(opens[0]))
